@@ -101,14 +101,29 @@ def _case(ck, i):
     return case_re(ck, rng, fam, m, mir, D, mean, x0, seed, desc, nontriv)
 
 
-def _claimed_convergence(ck, mir, got, what):
-    """iterative minimisers are judged by the criterion they claim: if the gradient of the
-    (mirror) Hamiltonian at the returned point is above the configured tolerance the minimiser
-    stopped on its iteration limit -> inconclusive case"""
-    g = np.max(np.abs(mir.gradH(np.asarray(got, dtype=float))))
-    if g > 1e-8:
+def _recording(ift, base):
+    """harness subclass of a NIFTy minimiser that records the gradient norm NIFTy itself reports
+    for the energy it returns (the driver hides the minimiser's status)"""
+    cache = _recording.__dict__.setdefault("cache", {})
+    if base not in cache:
+        class Rec(base):
+            def __call__(self, energy):
+                e, st = super().__call__(energy)
+                self.final_gradnorm = float(e.gradient_norm)
+                return e, st
+        Rec.__name__ = "Recording" + base.__name__
+        cache[base] = Rec
+    return cache[base]
+
+
+def _claimed_convergence(ck, mini, what):
+    """iterative minimisers are judged by the criterion they claim: GradientNormController also
+    returns CONVERGED on its iteration limit, so the gradient norm that NIFTy itself computed at
+    the returned point is compared with the configured tolerance; above it -> inconclusive case"""
+    g = getattr(mini, "final_gradnorm", None)
+    if g is None or not g <= 1e-9:
         ck.hit("minimiser_not_converged")
-        raise vh.SkipCase(f"{what}: minimiser stopped before its gradient tolerance")
+        raise vh.SkipCase(f"{what}: minimiser stopped before its own gradient tolerance")
 
 
 def _cmp_mean(ck, key, what, got, mean, hit):
@@ -193,11 +208,13 @@ def case_cl(ck, rng, fam, m, mir, D, mean, x0, seed, desc, nontriv):
     desc = dict(desc, ns=ns, mini=mini_kind, niter=niter)
     ck.note(desc, nontrivial=nontriv, klass=fam)
 
+    minis = []
+
     def minimizer():
         ctrl = ift.GradientNormController(tol_abs_gradnorm=1e-10, iteration_limit=400)
-        if mini_kind == "newton":
-            return ift.NewtonCG(ctrl)
-        return ift.L_BFGS(ctrl)
+        mm = _recording(ift, ift.NewtonCG if mini_kind == "newton" else ift.L_BFGS)(ctrl)
+        minis.append(mm)
+        return mm
 
     def run():
         return ift.optimize_kl(b["lh"], niter, ns, minimizer(), ic if mgvi else None,
@@ -209,8 +226,7 @@ def case_cl(ck, rng, fam, m, mir, D, mean, x0, seed, desc, nontriv):
         with ift.random.Context(seed):
             sl, mpos = run()
         got = vh.cl_vec(mir, mpos)
-        if mini_kind == "lbfgs":
-            _claimed_convergence(ck, mir, got, "L_BFGS")
+        _claimed_convergence(ck, minis[-1], mini_kind)
         _cmp_mean(ck, f"mean-mismatch:cl:optimize_kl:map:{mini_kind}",
                   "classic optimize_kl MAP result differs from the exact posterior mean", got, mean,
                   "cl_map_mean")
@@ -238,10 +254,11 @@ def case_cl(ck, rng, fam, m, mir, D, mean, x0, seed, desc, nontriv):
         else:
             # only the last iteration's samples are returned; script zeros for earlier iterations
             L, off, raws = _residual_map_last_iter(ift, sc, run, W, ns, niter, extract)
-    for todo, res in raws:
+    if len(minis) != len(raws) + 1:
+        raise RuntimeError("harness: one minimiser per driver run expected")
+    for (todo, res), mm in zip(raws, minis[1:]):
         got = vh.cl_vec(mir, res[1])
-        if mini_kind == "lbfgs":
-            _claimed_convergence(ck, mir, got, "L_BFGS")
+        _claimed_convergence(ck, mm, mini_kind)
         _cmp_mean(ck, f"mean-mismatch:cl:optimize_kl:mgvi:{mini_kind}",
                   "classic optimize_kl MGVI mean (mirrored samples, full convergence) differs from the "
                   "exact posterior mean", got, mean, "cl_mgvi_mean")
